@@ -15,7 +15,7 @@ CASEKEY = {'rf': 'rf', 'start': 'start', 'gap': '_gap'}
 RULE = ('nucleotide (DNA/RNA/IUPAC) and protein sequences of 0-60 columns (thorough: up to 200) with 0-40 % gap columns and planted '
         'start/stop codons (also with gaps inside); patterns start, stop, literal codons, alternations of 1-4 words of 1-4 letters or "." '
         '(overlapping and prefix-related words included); rf in fwd/bwd/both, single ints -4..3, tuples/lists/sets, None, invalid strings; '
-        'start offsets 0-5 and beyond the end; gap "-" or None; keyword arguments randomly left at their defaults; entry points '
+        'start offsets 0-5 and beyond the end; gap None, "-", ".", "~" or a class such as "-.", ".-", "-.~" on dash-, dot- and mixed-gapped sequences (a few gap strings outside the domain: ranges, class metacharacters, empty, letters); keyword arguments randomly left at their defaults; entry points '
         'BioSeq.match/matchall and BioBasket.match/matchall; thorough adds the exhaustive box of all sequences over {A,T,G,-} up to 5 '
         'columns x 6 patterns x gap settings with rf=both. non-trivial = distinct case with at least one reported match whose marker '
         '(backward strand, gap inside the match, gapped sequence, start > 0, rf form, entry point) is not the default. '
@@ -31,7 +31,7 @@ TRUSTED = ['CPython re (sre) for the codon-alternation patterns of DESIGN 5.5: m
            'copy.deepcopy of a BioSeq (the driver asserts that the receiver is unchanged)']
 ASSUMPTIONS = ['Python str restricted to printable ASCII; sequences without lower-case letters (the constructor upper-cases)',
                'patterns: "start", "stop" or "|"-separated non-empty words over ASCII letters and "."; general regexes are outside the domain',
-               'start >= 0; gap in {"-", None}; rf a string in fwd/bwd/both, an int, a collection of ints or None']
+               'start >= 0; gap None or a non-empty string over the gap symbols "-", ".", "~" with "-" only first or last (so that "[gap]*" is exactly that set); gap strings containing "]", "^", backslash, ranges or letters are outside the domain; rf a string in fwd/bwd/both, an int, a collection of ints or None']
 
 COMP = dict(zip('ACGTRYSWKMBDHVN.-', 'TGCAYRSWMKVHDBN.-'))
 
@@ -74,7 +74,7 @@ def occurrences(strand, words, gap):
         return res
     if dotfree:
         # gaps are transparent: scan the degapped strand, map residues back to columns
-        cols = [i for i, c in enumerate(strand) if c != gap]
+        cols = [i for i, c in enumerate(strand) if c not in gap]
         d = ''.join(strand[i] for i in cols)
         res, k = [], 0
         while k < len(d):
@@ -87,7 +87,7 @@ def occurrences(strand, words, gap):
                 k += 1
         return res
     # '.' may itself match a gap column: "the regex matches of the pattern" are defined by re
-    pat = '|'.join(('[%s]*' % re.escape(gap)).join(re.escape(c) if c != '.' else '.' for c in w) for w in words)
+    pat = '|'.join(('(?:%s)*' % '|'.join(re.escape(g) for g in gap)).join(re.escape(c) if c != '.' else '.' for c in w) for w in words)
     return [m.span() for m in re.finditer(pat, strand)]
 
 
@@ -110,7 +110,7 @@ def expected_matchall(s, sub, rf, start, gap):
     out = []
 
     def residues_before(strand, i):
-        return sum(1 for c in strand[start:i] if gap is None or c != gap)
+        return sum(1 for c in strand[start:i] if gap is None or c not in gap)
     if req is None or req & {0, 1, 2}:
         for b, e in occurrences(s, words, gap):
             if b < start:
@@ -157,14 +157,14 @@ def gen_seq(rng, maxlen):
             s = s[:i] + 'T' + s[i + 1:]
     gf = rng.choice([0, 0, 0.05, 0.1, 0.2, 0.4])
     if gf:
-        gch = '-' if rng.random() < 0.9 else '.'
+        gch = rng.choice(['-', '-', '-', '-', '.', '.', '-.', '-.', '-.~', '~'])
         out = []
         for c in s:
             while rng.random() < gf:
-                out.append(gch)
+                out.append(rng.choice(gch))
             out.append(c)
         while rng.random() < gf:
-            out.append(gch)
+            out.append(rng.choice(gch))
         s = ''.join(out)[:max(maxlen, 1) * 2]
     return s
 
@@ -229,6 +229,26 @@ def gen_rf(rng):
     return rng.choice(['forward', 'FWD', '', 'all']), 'str'
 
 
+GAPS_IN = ['.', '-.', '.-', '~', '-~', '.~', '-.~', '--', '..', '-.-', '~.-']     # inside the domain
+GAPS_OUT = ['.-.', '~-.', '^-', ']', '\\\\', '', 'N', '-A']                           # outside (ranges, class metacharacters, empty, letters)
+
+
+def gen_gap(rng, seqs=()):
+    x = rng.random()
+    dotted = any(('.' in t or '~' in t) for t in seqs)
+    if x < (0.25 if dotted else 0.6):
+        return '-'
+    if x < (0.4 if dotted else 0.8):
+        return None
+    if x < 0.985:
+        return rng.choice(GAPS_IN[:3]) if rng.random() < 0.7 else rng.choice(GAPS_IN)
+    return rng.choice(GAPS_OUT)
+
+
+def in_gap_domain(gap):
+    return gap is None or (len(gap) > 0 and all(c in '-.~' for c in gap) and '-' not in gap[1:-1])
+
+
 def gen_one(rng, maxlen):
     nseq = 1
     op = rng.choice(['matchall', 'matchall', 'matchall', 'match', 'match', 'b_matchall', 'b_match'])
@@ -240,7 +260,7 @@ def gen_one(rng, maxlen):
     start = rng.choice([0, 0, 0, 0, 1, 2, 3, 4, 5, 1, 2, 3, 4, 5, len(seqs[0]) if seqs else 7, 70 if rng.random() < 0.3 else 0])
     if rng.random() < 0.01:
         start = -rng.choice([1, 2, 3])          # outside the domain
-    gap = '-' if rng.random() < 0.7 else None
+    gap = gen_gap(rng, seqs)
     case = {'_op': op, 'seqs': seqs, 'sub': gen_sub(rng, rna, seqs), 'rf': rf, '_rfkind': rfkind, 'start': start, '_gap': gap, '_omit': []}
     for k, d in DEFAULTS.items():
         if case[CASEKEY[k]] == d and rng.random() < 0.5:
@@ -254,9 +274,9 @@ def gen_cases(rng, tier):
     cases = []
     # fixed small cases around the frame formula
     for s in ['ATG', 'AATG', 'AAATG', 'AAAATG', 'A-TG', '-ATG', 'A-ATG', 'A--ATG', 'CAT', 'CATA', 'CAT-A', 'C-ATAA', 'CAT--AACA-T',
-              'AUG', 'UCAU', 'AAAUGA-UG']:
+              'AUG', 'UCAU', 'AAAUGA-UG', 'CCA.TGCA..TAGCCTA.ACCATGA', 'CA-.TA.T-G', '.A~T-G.CAT']:
         for rf in ['fwd', 'bwd', 'both', None]:
-            for gap in ['-', None]:
+            for gap in ['-', None, '.', '-.', '-.~']:
                 cases.append({'_op': 'matchall', 'seqs': [s], 'sub': 'start', 'rf': rf, '_rfkind': 'str' if rf else 'none',
                               'start': 0, '_gap': gap, '_omit': []})
     n = 2600 if tier == 'quick' else 40000
@@ -360,7 +380,7 @@ def _run_term(case):
     gap = case['_gap']
     return '(run_C13 %s %s %s %s %s %s)' % (
         coq_N(OPS[case['_op']]), coq_list([coq_bs(s) for s in case['seqs']]), coq_bs(_eff_sub(case)), _rf_term(case['rf']),
-        coq_z(case['start']), 'None' if gap is None else '(Some %s)' % _byte(gap))
+        coq_z(case['start']), 'None' if gap is None else '(Some %s)' % coq_bs(gap))
 
 
 def model_term(case):
@@ -492,6 +512,11 @@ def impl(case):
     return _impl_single(case)
 
 
+def _hist_gap(rng, texts):
+    g = gen_gap(rng, texts)
+    return g if in_gap_domain(g) else '-.'
+
+
 def _call_step(rng, o, texts, fresh=False):
     rf, rfkind = gen_rf(rng)
     if isinstance(rf, str) and rf not in ('fwd', 'bwd', 'both'):
@@ -499,7 +524,7 @@ def _call_step(rng, o, texts, fresh=False):
     if rf is None and rng.random() < 0.7:
         rf, rfkind = 'both', 'str'
     st = {'_k': 'call', 'o': o, '_op': rng.choice(['matchall', 'matchall', 'match']), 'sub': None, 'rf': rf, '_rfkind': rfkind,
-          'start': rng.choice([0, 0, 1, 2, 3, 4, 5, 6, 7]), '_gap': '-' if rng.random() < 0.85 else None, '_omit': [],
+          'start': rng.choice([0, 0, 1, 2, 3, 4, 5, 6, 7]), '_gap': _hist_gap(rng, texts), '_omit': [],
           '_fresh': fresh, '_mut': rng.choice([None, None, 'clear', 'pop', 'append', 'reverse'])}
     return st
 
@@ -543,7 +568,7 @@ def gen_history(rng):
                 elif y < 0.85:
                     st2['rf'], st2['_rfkind'] = rng.choice([('fwd', 'str'), ('bwd', 'str'), ('both', 'str'), (0, 'int'), (-1, 'int')])
                 else:
-                    st2['_gap'] = None if st['_gap'] else '-'
+                    st2['_gap'] = rng.choice([g for g in [None, '-', '.', '-.'] if g != st['_gap']])
                 st2['o'] = o if rng.random() < 0.7 else rng.randrange(nobj)
                 st2['_fresh'] = rng.random() < 0.2
                 steps.append(st2)
@@ -562,7 +587,7 @@ def gen_history(rng):
             rf, rfkind = rng.choice([('fwd', 'str'), ('bwd', 'str'), ('both', 'str'), ([0, -1], 'tuple')])
             steps.append({'_k': 'basket', 'os': [o, rng.randrange(nobj), o][:rng.choice([1, 2, 3])], '_op': rng.choice(['b_matchall', 'b_match']),
                           'sub': rng.choice(subs), 'rf': rf, '_rfkind': rfkind, 'start': rng.choice([0, 0, 1, 3, 5]),
-                          '_gap': '-' if rng.random() < 0.85 else None, '_omit': []})
+                          '_gap': _hist_gap(rng, texts), '_omit': []})
     return {'_op': 'history', 'seqs': texts, '_ids': ids, 'steps': steps}
 
 
@@ -601,10 +626,12 @@ def _nontrivial_single(case, got):
     marks = []
     if any(m[3] is not None and m[3] < 0 for m in ms):
         marks.append('bwd')
-    if gap and any(gap in m[2] for m in ms):
+    if gap and any(g in m[2] for m in ms for g in gap):
         marks.append('gap-in-match')
-    if gap and any(gap in s for s in case['seqs']):
+    if gap and any(g in s for s in case['seqs'] for g in gap):
         marks.append('gapped-seq')
+    if gap and gap != '-':
+        marks.append('gap=' + gap)
     if case['start'] > 0:
         marks.append('start>0')
     if case['_rfkind'] != 'str' or case['rf'] != 'fwd':
@@ -626,19 +653,21 @@ def _histkey_single(case, got):
           'pattern=' + kind, 'len=' + ('0' if n == 0 else '1-9' if n < 10 else '10-59' if n < 60 else '60+'),
           'gap=' + str(case['_gap']), 'start=' + ('0' if case['start'] == 0 else '1-5' if 0 < case['start'] <= 5 else 'other'),
           'matches=' + ('err:' + got['e'] if isinstance(got, dict) else '0' if not ms else '1' if len(ms) == 1 else '2-5' if len(ms) <= 5 else '6+'),
-          'seq_gaps=' + ('yes' if any('-' in s for s in case['seqs']) else 'no')]
+          'seq_gaps=' + ('yes' if any(g in s for s in case['seqs'] for g in '-.~') else 'no')]
+    if not in_gap_domain(case['_gap']):
+        ks.append('gap_outside_domain')
     if any(m[3] is not None and m[3] < 0 for m in ms):
         ks.append('has_bwd_match')
-    if case['_gap'] and any(case['_gap'] in m[2] for m in ms):
+    if case['_gap'] and any(g in m[2] for m in ms for g in case['_gap']):
         ks.append('gap_inside_match')
-    if case['_gap'] and case['rf'] is not None and any(m[2][:1] == case['_gap'] for m in ms):
+    if case['_gap'] and case['rf'] is not None and any(m[2][:1] and m[2][:1] in case['_gap'] for m in ms):
         ks.append('match_starts_on_gap')
     return ks
 
 
 def _features_single(case, got):
     gap = case['_gap']
-    return {'_op': case['_op'], 'dot_on_gap': bool(gap and any(m[2][:1] == gap for m in _matches(got))),
+    return {'_op': case['_op'], 'dot_on_gap': bool(gap and any(m[2][:1] and m[2][:1] in gap for m in _matches(got))),
             'word_starts_with_dot': any(w[:1] == '.' for w in words_of(case['sub']))}
 
 
@@ -744,7 +773,7 @@ def extra_checks(rng, tier, cov):
         if not in_pattern_domain(sub):
             continue
         start = rng.choice([0, 0, 1, 2, 4])
-        gap = rng.choice(['-', '-', None])
+        gap = rng.choice(['-', '-', None, '.', '-.'])
         def obs(ms):
             return [[m.span()[0], m.span()[1], m.group(), m.rf] for m in ms]
         try:
@@ -779,10 +808,12 @@ LEVEL_TEXT = ('Machine-checked Coq theorems (30, all closed under the global con
               'also expressed on the forward strand); output is forward matches then backward matches, spans ascending and disjoint, nothing '
               'requested is lost, match() = first element of matchall() or None, baskets concatenate; the hand-written backtracking word matcher '
               'is proved sound and complete w.r.t. a declarative relation, finditer leftmost-complete, and for plain prefix-free words without proper overlap (start, stop) every occurrence is reported exactly once; ordered alternation reports the first word that occurs; no word occurs outside the reported spans; span bounds; the start offset in forward coordinates for backward frames; empty results; rf forms count only through membership; basket wrappers element-wise. The model is tied to sugar and to '
-              'CPython re by differential testing on every run plus a first-principles oracle on degapped strands.')
+              'CPython re by differential testing on every run plus a first-principles oracle on degapped strands. The gap argument is a '
+              'character SET throughout (model, relation irel, residues, theorems): "[gap]*" is the class of the characters of the gap string and '
+              '"nt in gap" is membership; the backward-count theorem uses a regenerated-table fact for the gap symbols "-", ".", "~".')
 LEVEL_NOTE = ('Trusted: Coq kernel/vm_compute, tools/gen_data.py (COMPLEMENT tables, via the C05 model), the correspondence harness, CPython re/bisect/'
               'deepcopy. Modelled rather than verified: cane.match, BioMatch.span, BioSeq/BioBasket match(all). Domain: printable-ASCII upper-case '
-              'sequences, patterns start/stop/"|"-separated words over ASCII letters and ".", start >= 0, gap in {"-", None}. '
+              'sequences, patterns start/stop/"|"-separated words over ASCII letters and ".", start >= 0, gap None or a string over "-", ".", "~" with "-" only first or last (class metacharacters "]", "^", backslash and ranges are outside). '
               'The frame theorem is at full strength (no guard) since the dot_on_gap fix 69fc7dc (bisect_left); the former witnesses '
               'are in corpus/C13/dot_on_gap.json. Tested only (differential + first-principles oracle, not proved): equivalence of the hand-written '
               'matcher with CPython re, a BioSeq given as the pattern (cane.py:209-210, compared through its upper-cased text), independence '
